@@ -7,13 +7,15 @@ One *invocation* of the `task` binary on one task of a project, in one of the mo
 mirroring the statement order of
 
   * `Executor.RunTask` (task.go): `IsTaskUpToDate` (unless forced) → "is up to date" →
-    prompt (unless dry) → `mkdir` → command loop, `statusOnError` on the first failure;
+    prompt (unless dry; `statusOnError` when it is declined) → `mkdir` → command loop,
+    `statusOnError` on the first failure;
   * `fingerprint.IsTaskUpToDate` (status AND sources, both always evaluated);
   * `ChecksumChecker.IsUpToDate` / `OnError`, `TimestampChecker.IsUpToDate` / `OnError`;
   * `Executor.Status`, `Executor.ToEditorOutput`, `Executor.Run` (`--summary`).
 
 Abstractions: paths are numbers (rank of the path string), a glob pattern is its negate
 bit plus the list of paths it would match if they existed (the expander is an oracle),
+the name hashed with a source is its path relative to the task directory (`nameOf`),
 `status:` commands are `test -f p`, a command writes fixed files and may fail / be the
 point where the process is killed as chosen by `Env`, the hash `H` is uninterpreted
 (a parameter), time is a logical clock supplied by `Env.now`.
@@ -55,8 +57,9 @@ structure Task where
 deriving Repr, DecidableEq
 
 structure Proj where
-  base : List (Path × Bytes)   -- `filepath.Base` of every path
+  base : List (Path × Bytes)   -- the bytes of every path: its slash path relative to the project root
   dirOf : List (Path × Nat)    -- paths lying inside a task directory
+  dirLen : List (Nat × Nat)    -- task directory id ↦ length of its `dir/` prefix (relative to the root)
   tasks : List Task
 deriving Repr, DecidableEq
 
@@ -107,7 +110,20 @@ def nowPats (pats : List Pat) (fs : FS) : List Pat :=
 
 def srcsNow (t : Task) (fs : FS) : List Path := globs (nowPats t.sources fs)
 
+/-- the root-relative slash path of `p`, as bytes -/
 def baseOf (pr : Proj) (p : Path) : Bytes := (aget pr.base p).getD []
+
+/-- length of the prefix `filepath.Rel(t.Dir, ·)` removes: `dir/` of the task (0 = project root) -/
+def stripOf (pr : Proj) (t : Task) : Nat :=
+  match t.dir with
+  | none => 0
+  | some d => (aget pr.dirLen d).getD 0
+
+/-- the NAME hashed for path `p` in task `t`: `filepath.ToSlash(filepath.Rel(t.Dir, p))`, the
+path relative to the task's directory.  (Everything a `sources` pattern of `t` matches lies below
+`t.Dir`, so the relative path is the root-relative one without the `dir/` prefix.)  Before the
+fix of `C05-dir-move-not-detected` this was `filepath.Base(p)`, which is not injective. -/
+def nameOf (pr : Proj) (t : Task) (p : Path) : Bytes := (baseOf pr p).drop (stripOf pr t)
 
 def contentOf (fs : FS) (p : Path) : Bytes :=
   match aget fs p with
@@ -119,13 +135,14 @@ def mtimeOf (fs : FS) (p : Path) : Nat :=
   | some f => f.mtime
   | none => 0
 
-/-- the bytes fed to the hash: for every source in order, base name then content -/
-def stream (pr : Proj) (fs : FS) : List Path → Bytes
+/-- the bytes fed to the hash: for every source in order, its name (`nm`) then its content,
+back to back (no delimiter) -/
+def stream (nm : Path → Bytes) (fs : FS) : List Path → Bytes
   | [] => []
-  | p :: l => baseOf pr p ++ contentOf fs p ++ stream pr fs l
+  | p :: l => nm p ++ contentOf fs p ++ stream nm fs l
 
 def fpNow (H : Bytes → Bytes) (pr : Proj) (t : Task) (fs : FS) : Bytes :=
-  H (stream pr fs (srcsNow t fs))
+  H (stream (nameOf pr t) fs (srcsNow t fs))
 
 /-- every non-negated `generates` pattern matches something (ChecksumChecker) -/
 def gensOk (t : Task) (fs : FS) : Bool :=
@@ -224,10 +241,12 @@ def mkdirTask (t : Task) (s : State) : State :=
   | none => s
   | some d => if d ∈ s.dirs then s else { s with dirs := s.dirs ++ [d] }
 
-/-- `RunTask` after the up-to-date check: prompt, mkdir, commands -/
+/-- `RunTask` after the up-to-date check: prompt, mkdir, commands.  A declined prompt (or no
+terminal) goes through `statusOnError` before the task is reported cancelled: the checksum the
+check has just recorded is removed again (`onError`; a no-op for method timestamp). -/
 def runBody (cfg : Cfg) (H : Bytes → Bytes) (pr : Proj) (i : Nat) (t : Task) (dry : Bool) (e : Env)
     (s : State) : State × Obs :=
-  if t.prompt && !dry && !e.yes then (s, ⟨.cancelled, false, [], []⟩)
+  if t.prompt && !dry && !e.yes then (onError t s, ⟨.cancelled, false, [], []⟩)
   else if dry then
     ((if cfg.dryMkdir then mkdirTask t s else s), Obs.quiet)
   else
